@@ -585,6 +585,111 @@ def gen_toctitle(rng):
     return toctitle_doc(rng.sample(TITLE_POOL, rng.randint(1, 5)), rng)
 
 
+# ------------------------------------------------------------------------------------------
+# Contents shapes: indirect arrays that list themselves / each other / arrays of arrays
+# ------------------------------------------------------------------------------------------
+def contents_doc(contents, extra, inherit=False):
+    """catalog 1, page tree 2, page 3 (IN the page tree, so extract_text reaches it) with `Contents contents`, font 90,
+    content streams 4 and 7; extra: further (id, obj) -- the array / reference objects (ids 5, 6, 8.. and 100..)"""
+    res = D([('Font', D([('F1', REF(90))]))])
+    page = [('Type', N('Page')), ('Parent', REF(2))] + ([] if inherit else [('Resources', res)]) + [('Contents', contents)]
+    objs = [(1, D([('Type', N('Catalog')), ('Pages', REF(2))])),
+            (2, D([('Type', N('Pages')), ('Kids', A([REF(3)])), ('Count', I(1))] + ([('Resources', res)] if inherit else []))),
+            (3, D(page)),
+            (4, ST([], b'BT /F1 12 Tf (Hello) Tj ET')),
+            (7, ST([('Filter', N('ASCII85Decode'))], b'87cURD]i,"Ebo80~>')),
+            (90, D([('Type', N('Font')), ('Subtype', N('Type1')), ('Encoding', N('WinAnsiEncoding'))]))]
+    return doc_of(sorted(objs + list(extra)))
+
+
+def _levels(depth, fan, leaf, base=100, top_streams=False, every_streams=False):
+    """arrays of arrays: object base+i = [base+i+1] * fan(i) for i < depth (a DAG whose unfolding has fan^depth paths; every
+    array is an INDIRECT object), object base+depth = leaf.  Streams are listed beside the sub-arrays at the top level
+    (top_streams) or at every level (every_streams; only used for small depth)."""
+    out = []
+    for i in range(depth):
+        items = [REF(base + i + 1)] * (fan(i) if callable(fan) else fan)
+        if every_streams or (top_streams and i == 0):
+            items = [REF(4)] + items + [REF(7)]
+        out.append((base + i, A(items)))
+    out.append((base + depth, leaf))
+    return out
+
+
+def contents_shapes():
+    """named members present in every run: (Contents value of page 3, further objects)"""
+    r = REF
+    E = {}
+    # an indirect array that lists itself once / twice / k times (the seeded demo's `5 0 obj [5 0 R 5 0 R]`)
+    for k in (1, 2, 3, 5):
+        E['self%d' % k] = (r(5), [(5, A([r(5)] * k))])
+    E['self2-direct-top'] = (A([r(4), r(5), r(7)]), [(5, A([r(5), r(5)]))])          # streams beside the cyclic array, in the direct array
+    E['self2-streams-inside'] = (r(5), [(5, A([r(4), r(5), r(5), r(7)]))])            # streams inside the array that lists itself
+    E['self2-via-refobj'] = (r(8), [(8, r(9)), (9, r(5)), (5, A([r(5), r(5)]))])     # reached through reference objects
+    E['self2-nested-direct'] = (r(5), [(5, A([A([r(5), r(5)]), A([r(5)])]))])        # the self references sit in nested DIRECT arrays
+    # mutually recursive arrays
+    E['mutual2'] = (r(5), [(5, A([r(6), r(6)])), (6, A([r(5), r(5)]))])
+    E['mutual2-asym'] = (r(5), [(5, A([r(6)])), (6, A([r(5), r(5), r(4)]))])
+    E['mutual3'] = (r(5), [(5, A([r(6), r(6)])), (6, A([r(8), r(8), r(8)])), (8, A([r(5), r(5)]))])
+    E['mutual2-direct-top'] = (A([r(5), r(4), r(6)]), [(5, A([r(6), r(6)])), (6, A([r(5), r(5)]))])
+    # a chain of reference objects around DEREF_LIMIT that ends in an array listing itself twice
+    for k in (DEREF_LIMIT - 2, DEREF_LIMIT - 1, DEREF_LIMIT):
+        E['chain%d-self2' % k] = (r(200), [(200 + j, r(201 + j)) for j in range(k)] + [(200 + k, A([r(200 + k), r(200 + k), r(4)]))])
+    # arrays of arrays, fan-out 2..3; small depth: streams at every level; depth up to and beyond DEREF_LIMIT: leaf without streams
+    for d, fan in ((1, 2), (2, 3), (4, 2), (8, 2), (6, 3)):
+        E['tree-d%d-f%d' % (d, fan)] = (r(100), _levels(d, fan, A([r(4), r(7)]), every_streams=True))
+    for d, fan in ((40, 2), (64, 3), (DEREF_LIMIT - 1, 2), (DEREF_LIMIT, 2), (DEREF_LIMIT + 1, 3), (200, 2)):
+        E['tree-d%d-f%d' % (d, fan)] = (r(100), _levels(d, fan, A([]), top_streams=True))
+    E['tree-d%d-f2-direct-top' % DEREF_LIMIT] = (A([r(4), r(100), r(100)]), _levels(DEREF_LIMIT, 2, I(0)))
+    return E
+
+
+def gen_contents(rng):
+    """random members of the Contents family"""
+    r = REF
+    kind = rng.choice(['self', 'self', 'mutual', 'tree-small', 'tree-small', 'tree-deep', 'chain-self', 'plain'])
+    stream = lambda: r(rng.choice([4, 7, 4, 7, 9000]))             # 9000: dangling (listed as it is)
+    def wrap(c):
+        """the page's Contents: the indirect object itself, a direct array around it, or a reference object in front"""
+        t = rng.random()
+        if t < 0.5: return c, []
+        if t < 0.8: return A([stream() for _ in range(rng.randint(0, 2))] + [c] * rng.choice([1, 1, 2]) + [stream() for _ in range(rng.randint(0, 1))]), []
+        return r(8), [(8, c)]
+    if kind == 'self':
+        k = rng.randint(1, 5)
+        c, extra = wrap(r(5))
+        extra += [(5, A([r(5)] * k))]                               # no stream inside the cycle (see contents_shapes for that member)
+    elif kind == 'mutual':
+        n = rng.choice([2, 2, 3, 4])
+        ids = [5, 6, 8, 9][:n]
+        c, extra0 = wrap(r(5))
+        extra = [(i, A([r(rng.choice(ids))] * rng.randint(1, 2) + [r(ids[(j + 1) % n])] * rng.randint(1, 3))) for j, i in enumerate(ids)]
+        extra += [e for e in extra0 if e[0] not in ids]
+        if any(e[0] == 8 for e in extra0) and 8 in ids:
+            c = r(5)
+    elif kind == 'tree-small':
+        d = rng.randint(1, 9)
+        c, extra = wrap(r(100))
+        leaf = rng.choice([A([r(4), r(7)]), A([]), r(4), ST([], b'q Q'), I(1), 'back'])
+        if leaf == 'back':                                          # the last level lists the first again: streams at the top level only
+            extra += _levels(d, lambda i: rng.randint(1, 3), A([r(100)] * rng.randint(1, 2)), top_streams=rng.random() < 0.6)
+        else:
+            extra += _levels(d, lambda i: rng.randint(1, 3) if d <= 6 else rng.randint(1, 2), leaf, every_streams=rng.random() < 0.6)
+    elif kind == 'tree-deep':
+        d = rng.choice([30, 64, 100, DEREF_LIMIT - 2, DEREF_LIMIT - 1, DEREF_LIMIT, DEREF_LIMIT + 1, 160])
+        c, extra = wrap(r(100))
+        extra += _levels(d, lambda i: rng.randint(2, 3), rng.choice([A([]), I(0), A([r(100), r(100)])]), top_streams=rng.random() < 0.5)
+    elif kind == 'chain-self':
+        k = rng.choice([0, 1, 2, 60, DEREF_LIMIT - 2, DEREF_LIMIT - 1, DEREF_LIMIT, DEREF_LIMIT + 1])
+        c = r(200)
+        extra = [(200 + j, r(201 + j)) for j in range(k)] + [(200 + k, A([r(200 + k)] * rng.randint(1, 3)))]
+    else:
+        # ordinary shapes: an indirect array of streams, a direct one, arrays with non-reference items
+        c = rng.choice([r(5), A([r(4), r(7)]), A([r(5), r(4)]), r(4)])
+        extra = [(5, A([stream() for _ in range(rng.randint(0, 3))] + rng.choice([[], [I(1)], [A([r(4)])], [NULL]])))]
+    return contents_doc(c, extra, inherit=rng.random() < 0.3), kind
+
+
 def edge_cases():
     """fixed members of the two families above (present in every run, whatever the seed)"""
     E = {}
@@ -598,6 +703,8 @@ def edge_cases():
     for t in (b'', b'\xff', b'\xfe', b'a', b'\x80', b'\xfe\xff', b'\xff\xfe', b'\xfe\xff\x00', b'\xff\xfe\x41'):
         E['toctitle-' + (t.hex() or 'empty')] = toctitle_doc([t])
     E['toctitle-all-short'] = toctitle_doc([b'', b'\xff', b'\xfe', b'a', b'\xff\xfe', b'\xfe\xff', b'\xfe\xff\x00'])
+    for k, (c, extra) in contents_shapes().items():
+        E['contents-' + k] = contents_doc(c, extra)
     return E
 
 
@@ -625,6 +732,10 @@ def gen_cases(rng, tier):
             cases.append((gen_destref(rng2), {'kind': 'destref', 'nontrivial': True}))
         else:
             cases.append((gen_toctitle(rng2), {'kind': 'toctitle', 'nontrivial': True}))
+    # Contents family (drawn last again)
+    for k in range(24 if tier == 'quick' else 700):
+        line, kind = gen_contents(rng2)
+        cases.append((line, {'kind': 'contents-' + kind, 'nontrivial': True}))
     return cases
 
 
